@@ -12,6 +12,8 @@ With `B donor acceptor` the hydrogen-bond relation reported by kabsch_sander:
 * `c15_isTurn_spec`      a residue is inside a turn iff some s-turn (s = 3, 4, 5) starts 1 … s−1 residues before it
 * `c15_turn_bend_spec`   the last pass gives T / S exactly to loop residues (not skipped, not first/last) inside a turn / with a sharp bend
 * `c15_alpha_spec`       after the first helix pass a residue is H iff it lies in a minimal 4-helix (consecutive 4-turns at i−1 and i cover i … i+3) or was H before
+* `c15_helix_pass_spec`  declarative form of each helix pass (alpha, 3-10, pi): a residue ends with the pass's code iff it is covered by a minimal helix
+                         whose residues were all acceptable *before* the pass (loop/G for 3-10, loop/I/H for pi — pi overrides alpha); `helices_eq` instantiates it
 * `c15_skip_no_bridge`   a residue lacking N, CA, C or O is never a bridge partner
 * `c15_length`, `c15_na`, `c15_simplified_image`   one code per residue; incomplete residues are "NA" in both alphabets; the simplified alphabet is
                          the fixed image H,G,I→H, E,B→E, T,S,' '→C (`c15_simplify_table` re-checks it against dssp.py's table)
@@ -239,6 +241,110 @@ theorem c15_alpha_spec (f4 : List HF) (n : Nat) (sec : List SS) (k : Nat) :
             · rw [r3] at hx; exact absurd hx (by decide)
             · rw [r4] at hx; exact absurd hx (by decide)
           · exact Or.inr ⟨i, by omega, r1, r2, r3, r4, r5, r6⟩
+
+/-! ### all three helix passes at once -/
+
+/-- one helix pass over residues `< k`: minimal helices of length `len` written as `ss` where every covered residue passes `ok` -/
+def genPass (cond : Nat → Bool) (len : Nat) (ok : SS → Bool) (ss : SS) (sec : List SS) (k : Nat) : List SS :=
+  (List.range k).foldl (fun sec i => if cond i then fillIf sec i len ok ss else sec) sec
+
+/-- residue x is covered by an accepted segment starting before k -/
+def covered (cond : Nat → Bool) (len : Nat) (ok : SS → Bool) (sec : List SS) (k x : Nat) : Prop :=
+  ∃ i, i < k ∧ cond i = true ∧ (∀ t, t < len → ok (sec.getD (i + t) .loop) = true) ∧ i ≤ x ∧ x < i + len
+
+/-- **declarative form of a helix pass** (alpha: `ok = true`; 3-10: loop or G; pi: loop, I or H): a residue ends as `ss` iff it is covered by a
+minimal helix all of whose residues were acceptable *before the pass*; every other residue is unchanged.  The imperative pass re-tests the
+evolving array; this shows the evolution never matters. -/
+theorem c15_helix_pass_spec (cond : Nat → Bool) (len : Nat) (ok : SS → Bool) (ss : SS) (hok : ok ss = true) (sec : List SS) (k : Nat) :
+    (genPass cond len ok ss sec k).length = sec.length ∧
+    ∀ x, x < sec.length → ((covered cond len ok sec k x → (genPass cond len ok ss sec k).getD x .loop = ss) ∧
+      (¬ covered cond len ok sec k x → (genPass cond len ok ss sec k).getD x .loop = sec.getD x .loop)) := by
+  induction k with
+  | zero =>
+    refine ⟨rfl, fun x _ => ⟨fun h => ?_, fun _ => rfl⟩⟩
+    obtain ⟨i, hi, _⟩ := h; omega
+  | succ k ih =>
+    obtain ⟨hl, hx⟩ := ih
+    have hstep : genPass cond len ok ss sec (k + 1) =
+        (if cond k then fillIf (genPass cond len ok ss sec k) k len ok ss else genPass cond len ok ss sec k) := by
+      simp [genPass, List.range_succ, List.foldl_append]
+    -- the acceptability test on the evolving array equals the test on the original array
+    have hsame : ∀ y, ok ((genPass cond len ok ss sec k).getD y .loop) = ok (sec.getD y .loop) := by
+      intro y
+      by_cases hy : y < sec.length
+      · by_cases hc : covered cond len ok sec k y
+        · rw [(hx y hy).1 hc, hok]
+          obtain ⟨i, _, _, hall, h1, h2⟩ := hc
+          have := hall (y - i) (by omega)
+          rw [show i + (y - i) = y by omega] at this
+          exact this.symm
+        · rw [(hx y hy).2 hc]
+      · have h1 : (genPass cond len ok ss sec k).getD y .loop = .loop := by
+          rw [List.getD_eq_getElem?_getD]; have : (genPass cond len ok ss sec k)[y]? = none := by simp; omega
+          simp [this]
+        have h2 : sec.getD y .loop = .loop := by
+          rw [List.getD_eq_getElem?_getD]; have : sec[y]? = none := by simp; omega
+          simp [this]
+        rw [h1, h2]
+    have hmono : ∀ x, covered cond len ok sec k x → covered cond len ok sec (k + 1) x := by
+      rintro x ⟨i, hi, r⟩; exact ⟨i, by omega, r⟩
+    rw [hstep]
+    by_cases hck : cond k = true
+    · simp only [hck, if_true]
+      by_cases hall : (List.range len).all (fun t => ok ((genPass cond len ok ss sec k).getD (k + t) .loop)) = true
+      · -- the segment at k is accepted
+        have hall' : ∀ t, t < len → ok (sec.getD (k + t) .loop) = true := by
+          intro t ht
+          have := List.all_eq_true.mp hall t (List.mem_range.mpr ht)
+          rw [hsame] at this; exact this
+        refine ⟨by rw [fillIf_length]; exact hl, fun x hxl => ?_⟩
+        have hxl' : x < (genPass cond len ok ss sec k).length := by rw [hl]; exact hxl
+        simp only [fillIf, hall, if_true, getD_mapIdx, hxl']
+        by_cases hin : k ≤ x ∧ x < k + len
+        · have : (decide (k ≤ x) && decide (x < k + len)) = true := by simp [hin.1, hin.2]
+          simp only [this, if_true]
+          exact ⟨fun _ => trivial, fun hn => absurd ⟨k, by omega, hck, hall', hin.1, hin.2⟩ hn⟩
+        · have : (decide (k ≤ x) && decide (x < k + len)) = false := by
+            by_contra hh; simp only [Bool.not_eq_false, Bool.and_eq_true, decide_eq_true_eq] at hh; exact hin hh
+          simp only [this, Bool.false_eq_true, if_false]
+          constructor
+          · rintro ⟨i, hi, r1, r2, r3, r4⟩
+            by_cases hik : i = k
+            · subst hik; exact absurd ⟨r3, r4⟩ hin
+            · exact (hx x hxl).1 ⟨i, by omega, r1, r2, r3, r4⟩
+          · intro hn
+            exact (hx x hxl).2 (fun hc => hn (hmono x hc))
+      · -- rejected: nothing changes, and k contributes no accepted segment
+        have hall0 : (List.range len).all (fun t => ok ((genPass cond len ok ss sec k).getD (k + t) .loop)) = false := by simpa using hall
+        have hrej : ¬ (∀ t, t < len → ok (sec.getD (k + t) .loop) = true) := by
+          intro h
+          apply hall
+          apply List.all_eq_true.mpr
+          intro t ht
+          rw [hsame]; exact h t (List.mem_range.mp ht)
+        simp only [fillIf, hall0, Bool.false_eq_true, if_false]
+        refine ⟨hl, fun x hxl => ⟨?_, ?_⟩⟩
+        · rintro ⟨i, hi, r1, r2, r3, r4⟩
+          by_cases hik : i = k
+          · subst hik; exact absurd r2 hrej
+          · exact (hx x hxl).1 ⟨i, by omega, r1, r2, r3, r4⟩
+        · intro hn; exact (hx x hxl).2 (fun hc => hn (hmono x hc))
+    · have hck' : cond k = false := by simpa using hck
+      simp only [hck', Bool.false_eq_true, if_false]
+      refine ⟨hl, fun x hxl => ⟨?_, ?_⟩⟩
+      · rintro ⟨i, hi, r1, r2, r3, r4⟩
+        by_cases hik : i = k
+        · subst hik; rw [hck'] at r1; exact absurd r1 (by decide)
+        · exact (hx x hxl).1 ⟨i, by omega, r1, r2, r3, r4⟩
+      · intro hn; exact (hx x hxl).2 (fun hc => hn (hmono x hc))
+
+/-- the three passes of `helices` are instances of `genPass` -/
+theorem helices_eq (f3 f4 f5 : List HF) (n : Nat) (sec : List SS) :
+    helices f3 f4 f5 n sec =
+      genPass (fun i => 1 ≤ i && i + 5 < n && startAt f5 i && startAt f5 (i - 1)) 5 (fun s => s == .loop || s == .helix5 || s == .alpha) .helix5
+        (genPass (fun i => 1 ≤ i && i + 3 < n && startAt f3 i && startAt f3 (i - 1)) 3 (fun s => s == .loop || s == .helix3) .helix3
+          (genPass (fun i => 1 ≤ i && i + 4 < n && startAt f4 i && startAt f4 (i - 1)) 4 (fun _ => true) .alpha sec n) n) n := by
+  rfl
 
 /-! ### skipped residues, shape, alphabets -/
 
